@@ -38,6 +38,8 @@ RX_MENU = {
     "x*": (r"x*", "x", "x", 0, 3),
     "w": (r"[e-h][i-k]?", "w", None, 1, 2),
     "c13": (r"[1-3]", "c", "123", 1, 1),
+    # a partial match can run ahead of the last complete match ("3." is no match, "3" and "3.2" are)
+    "dec": (r"[0-9]+(\.[0-9]+)?", "d", None, 1, 5),
 }
 RX_MENU_BYTES = {
     "B1": (rb"[\x00-\x1f]", "B", bytes(range(0, 0x20)), 1, 1),
@@ -452,6 +454,11 @@ def sample_rx(ch, node, stream="work"):
     menu = RX_MENU_BYTES if isinstance(pat, bytes) else RX_MENU
     for key, m in menu.items():
         if m[0] == pat:
+            if key == "dec":
+                s = "".join(ch.pick("0123456789", stream, "rxch") for _ in range(ch.rng_range(1, 2, stream, "rxlen")))
+                if ch.draw(2, stream, "rxdec"):
+                    s += "." + "".join(ch.pick("0123456789", stream, "rxch") for _ in range(ch.rng_range(1, 2, stream, "rxlen")))
+                return s
             if key == "w":
                 s = ch.pick("efgh", stream, "rxw")
                 if ch.draw(2, stream, "rxw2"):
